@@ -21,7 +21,7 @@ MIN_DECIDING = {"dr_runs_judged": 100, "previous_path_checked": 150, "followup_c
 
 
 def budget(tier):
-    return {"cases": 1600, "seconds": 55} if tier == "quick" else {"cases": 40000, "seconds": 600}
+    return {"cases": 5000, "seconds": 55} if tier == "quick" else {"cases": 150000, "seconds": 600}
 
 
 def _apply_renames(rng, root, files, dirs, n, tag):
